@@ -43,26 +43,42 @@ theorem split_eq (rd : Nat → Nat) (secret : List Nat) {t n : Nat} (ht : 1 ≤ 
       (by unfold splitFuel; omega)]
   simp
 
-theorem mkShare_index (rd : Nat → Nat) (secret : List Nat) (t : Nat) {x : Nat} (hx : x < 256) :
-    (mkShare rd secret t x).index = x := Nat.mod_eq_of_lt hx
+theorem mkShareP_index (pb : Bool) (rd : Nat → Nat) (secret : List Nat) (t : Nat) {x : Nat} (hx : x < 256) :
+    (mkShareP pb rd secret t x).index = x := Nat.mod_eq_of_lt hx
 
-theorem coeffsFor_length (rd : Nat → Nat) (t b : Nat) : (coeffsFor rd t b).length = t - 1 := by
-  simp [coeffsFor]
+theorem coeffsForP_length (pb : Bool) (rd : Nat → Nat) (t b : Nat) : (coeffsForP pb rd t b).length = t - 1 := by
+  simp [coeffsForP, kDegreeStart_eq]
 
-theorem coeffsFor_bytes (rd : Nat → Nat) (t b : Nat) : Bytes (coeffsFor rd t b) := by
+theorem coeffsForP_bytes (pb : Bool) (rd : Nat → Nat) (t b : Nat) : Bytes (coeffsForP pb rd t b) := by
   intro v hv
-  simp only [coeffsFor, List.mem_map] at hv
+  simp only [coeffsForP, List.mem_map] at hv
   obtain ⟨_, _, rfl⟩ := hv
   exact Nat.mod_lt _ (by decide)
 
+theorem mkShareP_value_getD (pb : Bool) (rd : Nat → Nat) (secret : List Nat) (t : Nat) {x : Nat} (hx : x < 256) {b : Nat}
+    (hb : b < secret.length) :
+    (mkShareP pb rd secret t x).value.getD b 0 = evalPoly x (secret.getD b 0) (coeffsForP pb rd t b) := by
+  simp [mkShareP, Nat.mod_eq_of_lt hx, List.getD_eq_getElem?_getD, hb]
+
+theorem mkShareP_value_length (pb : Bool) (rd : Nat → Nat) (secret : List Nat) (t x : Nat) :
+    (mkShareP pb rd secret t x).value.length = secret.length := by
+  simp [mkShareP]
+
+theorem mkShare_index (rd : Nat → Nat) (secret : List Nat) (t : Nat) {x : Nat} (hx : x < 256) :
+    (mkShare rd secret t x).index = x := mkShareP_index _ rd secret t hx
+
+theorem coeffsFor_length (rd : Nat → Nat) (t b : Nat) : (coeffsFor rd t b).length = t - 1 :=
+  coeffsForP_length _ rd t b
+
+theorem coeffsFor_bytes (rd : Nat → Nat) (t b : Nat) : Bytes (coeffsFor rd t b) := coeffsForP_bytes _ rd t b
+
 theorem mkShare_value_getD (rd : Nat → Nat) (secret : List Nat) (t : Nat) {x : Nat} (hx : x < 256) {b : Nat}
     (hb : b < secret.length) :
-    (mkShare rd secret t x).value.getD b 0 = evalPoly x (secret.getD b 0) (coeffsFor rd t b) := by
-  simp [mkShare, Nat.mod_eq_of_lt hx, List.getD_eq_getElem?_getD, hb]
+    (mkShare rd secret t x).value.getD b 0 = evalPoly x (secret.getD b 0) (coeffsFor rd t b) :=
+  mkShareP_value_getD _ rd secret t hx hb
 
 theorem mkShare_value_length (rd : Nat → Nat) (secret : List Nat) (t x : Nat) :
-    (mkShare rd secret t x).value.length = secret.length := by
-  simp [mkShare]
+    (mkShare rd secret t x).value.length = secret.length := mkShareP_value_length _ rd secret t x
 
 /-! ### the validation loop of `combine` -/
 
